@@ -228,11 +228,14 @@ func Capitalize(s string) string {
 		if unicode.IsUpper(r) {
 			return s
 		}
-		r = unicode.ToUpper(r)
+		u := unicode.ToUpper(r)
+		if u == r {
+			return s
+		}
 		b := strings.Builder{}
 		b.Grow(len(s))
 		b.WriteString(s[:i])
-		b.WriteRune(r)
+		b.WriteRune(u)
 		b.WriteString(s[i+utf8.RuneLen(r):])
 		return b.String()
 	}
